@@ -25,7 +25,7 @@ struct Spec {
         std::ostringstream o;
         o << cls->name;
         if (code) o << "#" << code;
-        static const char * pn[] = {"unique", "00", "ff", "80/7f"};
+        static const char * pn[] = {"unique", "00", "ff", "80/7f", "sparse"};
         o << " fill=" << pn[pattern];
         for (auto & s : sel) o << " " << s.first << "=" << s.second;
         for (auto & s : shape) o << " |" << s.first << "|=" << s.second;
